@@ -1,6 +1,5 @@
 /- The mechanism computes the sequential reading: every suspended control state *denotes* what is left of `spec`,
-   and every way `mech` continues preserves that denotation (compiler-correctness style).  Under the guard
-   "no inner Task with a Run-type / PromiseCore head" (defect D10) nothing crashes. -/
+   and every way `mech` continues preserves that denotation (compiler-correctness style); nothing crashes. -/
 import YaclibModel.Proofs.PipelineBase
 
 namespace Yaclib.Pipeline
@@ -29,37 +28,11 @@ def denK (cfg : Cfg) (k : List Step) : Out → Option SOut
   | .parked t g => some (specThread cfg t g.subs g.invoked)
   | .crash _ => none
 
-def d10FreeWait : Wait → Bool
-  | .job _ _ (.step s _ _) => d10FreeStep s
-  | _ => true
-
-def d10FreeFrames : List Frame → Bool
-  | [] => true
-  | f :: fs => d10FreeSteps f.rest && d10FreeFrames fs
-
-def d10FreeThread (t : Thread) : Bool := d10FreeWait t.wait && d10FreeSteps t.rest && d10FreeFrames t.outer
-
-def okOut : Out → Bool
-  | .parked t _ => d10FreeThread t
-  | _ => true
-
 theorem specFrames_append (cfg : Cfg) (a b : List Frame) (o : SOut) :
     specFrames cfg (a ++ b) o = specFrames cfg b (specFrames cfg a o) := by
   induction a generalizing o with
   | nil => rfl
   | cons f fs ih => simp [specFrames, ih]
-
-theorem d10FreeFrames_append (a b : List Frame) :
-    d10FreeFrames (a ++ b) = (d10FreeFrames a && d10FreeFrames b) := by
-  induction a with
-  | nil => simp [d10FreeFrames]
-  | cons f fs ih => simp [d10FreeFrames, ih, Bool.and_assoc]
-
-theorem d10FreeSteps_append (a b : List Step) :
-    d10FreeSteps (a ++ b) = (d10FreeSteps a && d10FreeSteps b) := by
-  induction a with
-  | nil => simp [d10FreeSteps]
-  | cons f fs ih => simp [d10FreeSteps, ih, Bool.and_assoc]
 
 theorem specSteps_append (cfg : Cfg) (a b : List Step) (hd : Bool) (r : R) (inh : Exec) (subs inv : List Nat) :
     specSteps cfg (a ++ b) hd r inh subs inv =
@@ -147,30 +120,21 @@ theorem startSrc_spec (cfg : Cfg) (src : Src) (ctx : Option Nat) (g : G) :
     | .go r inh _ g' => specSrc cfg src none false g.subs = (r, inh, g'.subs) ∧ g'.invoked = g.invoked
     | .wait w inh g' =>
       (∀ inv, specFire cfg w inh g'.subs inv = ⟨(specSrc cfg src none false g.subs).1, inh, g'.subs, inv⟩) ∧
-      (specSrc cfg src none false g.subs).2 = (inh, g'.subs) ∧ g'.invoked = g.invoked ∧ d10FreeWait w = true ∧
-      (src == Src.unit) = false
+      (specSrc cfg src none false g.subs).2 = (inh, g'.subs) ∧ g'.invoked = g.invoked ∧ (src == Src.unit) = false
     | .crash _ => False := by
   cases src with
   | ready r => simp [startSrc, specSrc]
-  | contract p f => simp [startSrc, specSrc, specFire, d10FreeWait]
-  | contractOn e p f => simp [startSrc, specSrc, specFire, d10FreeWait]
+  | contract p f => simp [startSrc, specSrc, specFire]
+  | contractOn e p f => simp [startSrc, specSrc, specFire]
   | unit => simp [startSrc, specSrc]
   | promiseFn e p f =>
     have h := submit_offered cfg e ctx g f.result
     simp only [startSrc, specSrc, Option.getD_none]
     cases hs : submit cfg e ctx g with
-    | callNow c g' => rw [hs] at h; simp [h.1, h.2, specFire, d10FreeWait]
+    | callNow c g' => rw [hs] at h; simp [h.1, h.2, specFire]
     | dropNow c g' => rw [hs] at h; simp [h.1, h.2]
-    | queued jid k g' => rw [hs] at h; simp [h.1, h.2.1, specFire, d10FreeWait]
+    | queued jid k g' => rw [hs] at h; simp [h.1, h.2.1, specFire]
   | sharedReady r => simp [startSrc, specSrc]
-  | sharedContract p f => simp [startSrc, specSrc, specFire, d10FreeWait]
-
-/-- ReadyCore::Here: the only head that can be entered this way -/
-theorem enterHere_spec (cfg : Cfg) (src : Src) (ctx : Option Nat) (g : G) (h : src.isReady = true) :
-    match enterHere src ctx g with
-    | .go r inh _ g' => specSrc cfg src none false g.subs = (r, inh, g'.subs) ∧ g'.invoked = g.invoked
-    | .wait _ _ _ => False
-    | .crash _ => False := by
-  cases src <;> simp_all [enterHere, Dispatch.asyncEntry, specSrc, Src.isReady]
+  | sharedContract p f => simp [startSrc, specSrc, specFire]
 
 end Yaclib.Pipeline
